@@ -116,7 +116,7 @@ def main(job):
 
         n = 0
         t0 = time.time()
-        budget = float(job.get("preflight_budget", 20))
+        budget = float(job.get("preflight_budget", (job.get("part") or {}).get("preflight_budget", 20)))
         for args in grid_fn():
             if n < 40:
                 sys.setprofile(prof)
